@@ -581,3 +581,78 @@ def random_schema(rng, ntypes=None, cpp_full=False, allow_float=True, allow_gree
 
 def dumps(schema):
     return json.dumps(schema.to_json())
+
+
+# ---------------------------------------------------------------------------
+# isar XML (+ patch) rendering of the expressible subset
+# ---------------------------------------------------------------------------
+
+ISAR_PRIMITIVE = {
+    'u8': "8 bit integer unsigned", 'u16': "16 bit integer unsigned", 'u32': "32 bit integer unsigned",
+    'u64': "64 bit integer unsigned", 'i8': "8 bit integer signed", 'i16': "16 bit integer signed",
+    'i32': "32 bit integer signed", 'i64': "64 bit integer signed", 'r32': "32 bit float", 'r64': "64 bit float"}
+
+
+def _xml_escape(s):
+    return str(s).replace('&', '&amp;').replace('<', '&lt;').replace('>', '&gt;').replace('"', '&quot;')
+
+
+def render_def_isar(d, patch, as_message=False):
+    """XML text of one definition; appends patch lines needed to express what isar cannot."""
+    if d.kind == 'const':
+        return '<constant name="%s" value="%s"/>' % (d.name, _xml_escape(d.text if d.text else d.value))
+    if d.kind == 'enum':
+        body = ''.join('\n    <enum-member name="%s" value="%s"/>' % (n, _xml_escape(t if t else v)) for n, v, t in d.members)
+        return '<enum name="%s">%s\n</enum>' % (d.name, body)
+    if d.kind == 'typedef':
+        if d.target in ISAR_PRIMITIVE:
+            return '<typedef name="%s" primitiveType="%s"/>' % (d.name, ISAR_PRIMITIVE[d.target])
+        return '<typedef name="%s" type="%s"/>' % (d.name, d.target)
+    if d.kind == 'union':
+        body = ''.join('\n    <member name="%s" type="%s" discriminatorValue="%s"/>' % (n, tp, _xml_escape(t if t else disc))
+                       for disc, tp, n, t in d.arms)
+        return '<union name="%s">%s\n</union>' % (d.name, body)
+    out = []
+    for m in d.members:
+        t = 'u8' if m.type == 'byte' else m.type
+        if m.type == 'byte':
+            patch.append('%s type %s byte' % (d.name, m.name))
+        sz = _xml_escape(m.size_text if m.size_text else m.size)
+        if m.kind == PLAIN:
+            out.append('<member name="%s" type="%s"/>' % (m.name, t))
+        elif m.kind == OPTIONAL:
+            out.append('<member name="%s" type="%s" optional="true"/>' % (m.name, t))
+        elif m.kind == FIXED:
+            out.append('<member name="%s" type="%s"><dimension size="%s"/></member>' % (m.name, t, sz))
+        elif m.kind == DYNAMIC:
+            out.append('<member name="%s" type="%s"><dimension isVariableSize="true" variableSizeFieldName="num_of_%s"/>'
+                       '</member>' % (m.name, t, m.name))
+        elif m.kind == LIMITED:
+            out.append('<member name="%s" type="%s"><dimension isVariableSize="true" size="%s" '
+                       'variableSizeFieldName="num_of_%s"/></member>' % (m.name, t, sz, m.name))
+        elif m.kind == EXT:
+            out.append('<member name="%s" type="%s"><dimension isVariableSize="true" variableSizeFieldName="@%s"/>'
+                       '</member>' % (m.name, t, m.sizer))
+        elif m.kind == GREEDY:
+            out.append('<member name="%s" type="%s"><dimension size="1"/></member>' % (m.name, t))
+            patch.append('%s greedy %s' % (d.name, m.name))
+    tag = 'message' if as_message else 'struct'
+    return '<%s name="%s">%s\n</%s>' % (tag, d.name, ''.join('\n    ' + x for x in out), tag)
+
+
+def isar_expressible(schema):
+    """Limited arrays inside <message> elements become dynamic in isar; everything else of the IR is expressible
+    (greedy and bytes through a patch)."""
+    return True
+
+
+def to_isar(schema, order=None, messages=()):
+    """-> (xml text, patch text or None). order: definition names in the textual order wanted."""
+    patch = []
+    names = order if order is not None else [d.name for d in schema.defs]
+    body = []
+    for n in names:
+        d = schema.by_name[n]
+        body.append(render_def_isar(d, patch, as_message=n in messages))
+    xml = '<?xml version="1.0" encoding="utf-8"?>\n<x>\n%s\n</x>\n' % '\n'.join(body)
+    return xml, ('\n'.join(patch) + '\n') if patch else None
